@@ -895,7 +895,13 @@ func checkC09(c *Ctx) {
 				continue
 			}
 			if (modelField(lc.model, "v") == "1") != lc.goObs.V {
-				c.internal("Lean model disagrees with the engine on a version comparison: " + lc.text + " on " + lc.obj.Pretty() + " -> " + lc.model)
+				if valid && (hasHugeComponent(lit) || hasHugeComponent(a.S)) {
+					// beyond 2^64 the model follows the library's 64-bit limit (known finding); an engine that agrees with
+					// the unbounded oracle there is not wrong
+					c.count("engine_agrees_with_the_unbounded_oracle_beyond_2^64")
+				} else {
+					c.internal("Lean model disagrees with the engine on a version comparison: " + lc.text + " on " + lc.obj.Pretty() + " -> " + lc.model)
+				}
 			}
 			c.pairCheck(prev, lc, expected, "version comparison disagrees with semantic-version precedence")
 			c.sample(map[string]string{"rule": lc.text, "object": lc.obj.Pretty(), "verdict": strconv.FormatBool(expected)})
